@@ -1245,6 +1245,12 @@ pub fn run(ctx: &mut Ctx) {
     let huge: Vec<HugeCase> = sizes.iter().flat_map(|n| [true, false].map(|stdin| HugeCase { len: *n, seed: ctx.sub_seed("huge", *n as u64), stdin })).collect();
     ctx.run_cases("huge-input", &huge, judge_huge);
     drain_timeouts(ctx);
+    // at a terminal: the commands without an input file
+    let term: Vec<Case> = matrix.iter().filter(|c| matches!(c.cmd, Cmd::Address | Cmd::Export | Cmd::PublicKey | Cmd::SignRaw)).step_by(ctx.tier.pick(4, 1)).cloned().collect();
+    ctx.run_cases("terminal", &term, judge_terminal);
+    if ctx.cls.count("tty-not-available-or-timeout") > 0 {
+        ctx.inconclusive(format!("{} terminal runs could not be made", ctx.cls.count("tty-not-available-or-timeout")));
+    }
 
     let n: u32 = ctx.tier.pick(4000, 60_000);
     ctx.run_prop("cli", n, || crate::gen::tape(1024).prop_map(gen_case), judge);
@@ -1287,6 +1293,30 @@ pub fn run(ctx: &mut Ctx) {
     ctx.floor_abs("bytes:non-utf8", ctx.tier.pick(10, 300));
 }
 
+/// Commands that take no input file, with a pseudo-terminal as standard output (where a user normally sees them):
+/// exactly what they print into a pipe.
+fn judge_terminal(c: &Case, cls: &mut Classifier) -> Verdict {
+    let Some(exe) = cli_path() else { return fail("cli", "not configured", "CLI not available") };
+    let args: Vec<&str> = c.run.args.iter().map(String::as_str).collect();
+    let os: Vec<std::ffi::OsString> = c.run.args.iter().map(std::ffi::OsString::from).collect();
+    let piped = std::env::var_os("HDV_NO_AMBIENT");
+    let _ = piped;
+    let pipe = crate::cli::run_raw(&exe, &os, &c.run.env, &[], Duration::from_secs(60));
+    if pipe.timed_out {
+        return Ok(());
+    }
+    let Some(tty) = crate::cli::run_tty_env(&exe, &args, &c.run.env, &[], false, true) else {
+        cls.label("tty-not-available-or-timeout");
+        return Ok(());
+    };
+    if (tty.code, &tty.stdout) != (pipe.code, &pipe.stdout) {
+        return fail(format!("as into a pipe: {}", pipe.describe()), tty.describe(), format!("standard output is a terminal; {}", show(&c.run)));
+    }
+    cls.label("terminal");
+    cls.nontrivial(&("tty", &c.run.args, &c.run.env));
+    Ok(())
+}
+
 /// `hash data` of a very large input (given by recipe, not stored): Keccak-256 of ALL of it, by file and stdin.
 #[derive(Clone, Debug, Serialize, Deserialize)]
 pub struct HugeCase {
@@ -1326,6 +1356,7 @@ fn judge_huge(c: &HugeCase, cls: &mut Classifier) -> Verdict {
 pub fn replay(sub: &str, case: &Value) -> Option<Verdict> {
     match sub {
         "huge-input" => Some(replay_as::<HugeCase>(case, judge_huge)),
+        "terminal" => Some(replay_as::<Case>(case, judge_terminal)),
         "cli" | "matrix" => Some(replay_as::<Case>(case, judge)),
         _ => None,
     }
